@@ -267,6 +267,22 @@ def check(ctx):
     check_matrices(ctx)
     check_derivative(ctx)
     check_init(ctx)
+    # "follow the reaction list": the matrices are built when the model is initialised, so every method that changes the reaction
+    # list, the species or the parameters must clear the flag that makes the next use rebuild them (C08 R8.1, re-emitted here for the
+    # methods that touch the reactions and the index dictionaries), and a stale model must be refused (R8.2)
+    from ..core import SubCtx
+    from . import c08
+    for m in ('random', 'lineage', 'lineage.pxd', 'inference'):
+        ctx.prog.mod(m)
+    sub = SubCtx(ctx)
+    c08.check_invalidation(sub, 'Model', c08.DEF_FIELDS)
+    c08.check_refusal(sub)
+    n_re = 0
+    for rule, key, ok, where, what, detail in sub.got:
+        if (rule == 'R8.1-invalidate' and key.startswith('Model.') and ('reaction' in key or '_add_' in key)) or rule == 'R8.2-stale-refused':
+            ctx.ob('R3.6-rebuilt-after-change', '%s/%s' % (rule, key), ok, where, what, detail)
+            n_re += 1
+    ctx.floor('R3.6-rebuilt-after-change', 4)
     ctx.floor('R3.1-accumulation', 5)
     ctx.floor('R3.2-tuple-positions', 4)
     ctx.floor('R3.4-derivative', 2)
